@@ -256,7 +256,7 @@ theorem C20_reachable (s : Sys) (l : List Step)
       obtain ⟨p1, p2, p3, p4⟩ := hp
       cases handle_touch x x' m ms hx with
       | none h _ _ _ => rw [h.hub, h.disp]; exact ⟨p1, p2, p3, p4⟩
-      | hub s1 sender funds hm _ _ _ hx' b t r d g =>
+      | hub s1 sender funds hm _ _ _ _ hx' b t r d g =>
         have st := C20_hub_step_range _ _ _ _ _ _ _ ⟨p1, p2⟩ hx'
         rw [d]; exact ⟨st.1, st.2.1, p3, p4⟩
       | bsei s1 sender funds tm _ _ hx' h t r d g => rw [h, d]; exact ⟨p1, p2, p3, p4⟩
